@@ -42,6 +42,10 @@ theorem wr_of_le {α : Type} (a : Array α) (i : Nat) (x : α) (h : a.size ≤ i
 theorem and_255 (x : Nat) : x &&& 255 = x % 256 := by
   simpa using Nat.and_two_pow_sub_one_eq_mod x 8
 
+theorem and_15 (x : Nat) : x &&& 15 = x % 16 := by simpa using Nat.and_two_pow_sub_one_eq_mod x 4
+theorem and_511 (x : Nat) : x &&& 511 = x % 512 := by simpa using Nat.and_two_pow_sub_one_eq_mod x 9
+theorem and_1023 (x : Nat) : x &&& 1023 = x % 1024 := by simpa using Nat.and_two_pow_sub_one_eq_mod x 10
+
 theorem and_pow2_sub_one (x k : Nat) : x &&& (2 ^ k - 1) = x % 2 ^ k := Nat.and_two_pow_sub_one_eq_mod x k
 
 namespace Hc128
